@@ -101,6 +101,27 @@ def lits_for(rnd, signed, n, f, radix, count):
             if last > 0:
                 emit(neg, si, sf[:-1] + DIG[last - 1] + DIG[radix - 1] * z + DIG[radix - 1])
 
+    # systematic block (decimal only): the ties adjacent to every 1- and 2-digit decimal fraction j/10^m,
+    # i.e. tie points whose own expansion starts just below / at / above a short decimal - where the
+    # digit-by-digit comparison with the tie point is about to carry.  Each in exact / hair-below (two
+    # spellings) / hair-above form.
+    if radix == 10 and f >= 1:
+        for m in (1, 2):
+            p10 = 10 ** m
+            for j in range(1, p10):
+                rf = (j << f) // p10
+                for off in (-1, 0, 1):
+                    R = rf + off
+                    if R < 0 or R >= (1 << f):
+                        continue
+                    si, sf = expand(2 * R + 1, f + 1, radix)
+                    emit(False, si, sf)
+                    last = DIG.index(sf[-1])
+                    if last > 0:
+                        emit(False, si, sf[:-1] + DIG[last - 1] + "9" * 40)
+                    if len(sf) > 1:
+                        emit(False, si, sf[:-1])
+                    emit(False, si, sf + "0" * 25 + "1")
     for _ in range(count):
         c = rnd.randrange(100)
         # pick a raw grid value R
